@@ -2599,3 +2599,7 @@ impl TransactionBuilder {
         Ok(self.fee_request.get_new_fee(min_fee(&self_copy)?))
     }
 }
+
+#[cfg(kani)]
+#[path = "/verif/kani/tx_builder.rs"]
+mod verif_kani_tx_builder;
